@@ -3,6 +3,8 @@ package props
 import (
 	"encoding/json"
 	"fmt"
+	"github.com/antchfx/xpath"
+	"github.com/jf-tech/go-corelib/caches"
 	"io"
 	"regexp"
 	"strconv"
@@ -23,12 +25,14 @@ import (
 // Three drivers over the same reference (ref.Greedy): (i) flatfile.HierarchyReader with a stub
 // RecReader, (ii) the EDI reader on real bytes, (iii) csv2 / fixedlength2 through NewSchema.
 
+// (FilterSerial > 0: the run uses a target xpath filter rejecting instances that contain that unit)
 type c05Case struct {
-	Driver  string   `json:"driver"` // hier | edi | csv2 | fixedlength2
-	Hier    string   `json:"hierarchy"`
-	Decls   []*hdecl `json:"decls"`
-	Units   []string `json:"units"`
-	Variant int      `json:"variant"`
+	FilterSerial int      `json:"filter_out_serial,omitempty"`
+	Driver       string   `json:"driver"` // hier | edi | csv2 | fixedlength2
+	Hier         string   `json:"hierarchy"`
+	Decls        []*hdecl `json:"decls"`
+	Units        []string `json:"units"`
+	Variant      int      `json:"variant"`
 }
 
 // hdecl is the JSON form of ref.HDecl.
@@ -193,8 +197,70 @@ func refObs2(decls []*ref.HDecl, units []ref.Unit, rootRestart bool) c05Obs {
 
 const c05MaxReads = 64
 
-func runHier(decls []*ref.HDecl, units []ref.Unit) c05Obs {
-	hr := flatfile.NewHierarchyReader(stubDecls(decls), &stubRecReader{units: units}, nil)
+// c05FilterOut: the observation expected when a target xpath filter rejects every target instance that
+// contains the unit with serial k: the same matching, the same terminal result, the same trees (a
+// rejected instance is removed just like a delivered-and-released one), minus those deliveries.
+func c05FilterOut(o c05Obs, k int) c05Obs {
+	out := c05Obs{Terminal: o.Terminal}
+	tag := "#" + strconv.Itoa(k)
+	for _, d := range o.Deliveries {
+		i := strings.IndexByte(d, '*')
+		if i < 0 {
+			out.Deliveries = append(out.Deliveries, d)
+			continue
+		}
+		// the marked subtree: up to the end of its name/serial, plus its parenthesised children
+		j := i + 1
+		for j < len(d) && d[j] != ' ' && d[j] != '(' && d[j] != ')' {
+			j++
+		}
+		if j < len(d) && d[j] == '(' {
+			depth := 0
+			for ; j < len(d); j++ {
+				if d[j] == '(' {
+					depth++
+				} else if d[j] == ')' {
+					depth--
+					if depth == 0 {
+						j++
+						break
+					}
+				}
+			}
+		}
+		sub := d[i:j]
+		hit := false
+		for p := strings.Index(sub, tag); p >= 0; {
+			e := p + len(tag)
+			if e >= len(sub) || sub[e] < '0' || sub[e] > '9' {
+				hit = true
+				break
+			}
+			q := strings.Index(sub[e:], tag)
+			if q < 0 {
+				break
+			}
+			p = e + q
+		}
+		if !hit {
+			out.Deliveries = append(out.Deliveries, d)
+		}
+	}
+	return out
+}
+
+func runHier(decls []*ref.HDecl, units []ref.Unit) c05Obs { return runHierF(decls, units, "") }
+
+// runHierF: with a target xpath filter (empty = none).
+func runHierF(decls []*ref.HDecl, units []ref.Unit, filter string) c05Obs {
+	var fx *xpath.Expr
+	if filter != "" {
+		var err error
+		if fx, err = caches.GetXPathExpr(filter); err != nil {
+			return c05Obs{Terminal: "harness-filter:" + err.Error()}
+		}
+	}
+	hr := flatfile.NewHierarchyReader(stubDecls(decls), &stubRecReader{units: units}, fx)
 	var o c05Obs
 	for i := 0; i < c05MaxReads; i++ {
 		n, err := hr.Read()
@@ -278,8 +344,12 @@ func runReaderLoop(r fileformat.FormatReader, classify func(error) string) c05Ob
 }
 
 func runEDI(decls []*ref.HDecl, units []ref.Unit, variant int) c05Obs {
+	return runEDIF(decls, units, variant, "")
+}
+
+func runEDIF(decls []*ref.HDecl, units []ref.Unit, variant int, filter string) c05Obs {
 	fd := &edi.FileDecl{SegDelim: "~", ElemDelim: "*", SegDecls: ediDecls(decls)}
-	r, err := edi.NewReader("in", strings.NewReader(ediInput(units, variant)), fd, "")
+	r, err := edi.NewReader("in", strings.NewReader(ediInput(units, variant)), fd, filter)
 	if err != nil {
 		return c05Obs{Terminal: "newreader-error:" + err.Error()}
 	}
@@ -457,10 +527,18 @@ func c05CheckCase(cs c05Case) (sig, detail string) {
 	case "hier":
 		want = refObs(decls, units)
 		real = runHier(decls, units)
+		if cs.FilterSerial > 0 {
+			want = c05FilterOut(want, cs.FilterSerial)
+			real = runHierF(decls, units, c05HierFilter(cs.FilterSerial))
+		}
 		loose = true
 	case "edi":
 		want = refObs(decls, units)
 		real = runEDI(decls, units, cs.Variant)
+		if cs.FilterSerial > 0 {
+			want = c05FilterOut(want, cs.FilterSerial)
+			real = runEDIF(decls, units, cs.Variant, c05EDIFilter(cs.FilterSerial))
+		}
 	default:
 		c05Adapt(decls)
 		want = refObs(decls, units)
@@ -474,12 +552,29 @@ func c05CheckCase(cs c05Case) (sig, detail string) {
 	if sameObs(real, want, loose) {
 		return "", "agree: " + real.String()
 	}
-	if cs.Driver == "edi" && sameObs(real, refObs2(decls, units, true), false) {
+	if cs.Driver == "edi" && cs.FilterSerial > 0 && sameObs(real, c05FilterOut(refObs2(decls, units, true), cs.FilterSerial), false) {
+		return "edi:top-level-sequence-restarts-after-completion", fmt.Sprintf(
+			"hierarchy %s\nunits %v variant %d, target filter rejecting unit %d\n-- implementation (equals the greedy matcher with the top-level sequence repeated under a fresh root):\n%s\n-- reference:\n%s",
+			ref.Describe(decls), cs.Units, cs.Variant, cs.FilterSerial, real, want)
+	}
+	if cs.Driver == "edi" && cs.FilterSerial == 0 && sameObs(real, refObs2(decls, units, true), false) {
 		return "edi:top-level-sequence-restarts-after-completion", fmt.Sprintf(
 			"hierarchy %s\nunits %v variant %d\n-- implementation (equals the greedy matcher with the top-level sequence repeated under a fresh root):\n%s\n-- reference:\n%s",
 			ref.Describe(decls), cs.Units, cs.Variant, real, want)
 	}
-	return c05Sig(cs.Driver, cs.Variant, real, want), fmt.Sprintf("hierarchy %s\nunits %v variant %d\n-- implementation:\n%s\n-- reference:\n%s", ref.Describe(decls), cs.Units, cs.Variant, real, want)
+	sig = c05Sig(cs.Driver, cs.Variant, real, want)
+	if cs.FilterSerial > 0 {
+		sig = "filtered-target:" + sig
+	}
+	return sig, fmt.Sprintf("hierarchy %s\nunits %v variant %d filter-out-serial %d\n-- implementation:\n%s\n-- reference:\n%s", ref.Describe(decls), cs.Units, cs.Variant, cs.FilterSerial, real, want)
+}
+
+// target xpath filters rejecting every target instance that contains the unit with serial k
+func c05EDIFilter(k int) string {
+	return fmt.Sprintf(".[not(descendant-or-self::*[s='%d'])]", k)
+}
+func c05HierFilter(k int) string {
+	return fmt.Sprintf(".[not(descendant-or-self::*[text()='%d'])]", k)
 }
 
 func init() {
@@ -488,7 +583,7 @@ func init() {
 	core.Register(&core.Prop{
 		ID:    "C05",
 		Level: "model_checking",
-		Rule:  "every declaration hierarchy (all forest shapes, inner node = group or record-with-children, names, (min,max), single target position) up to the node bound x every unit sequence over the declared names plus an undeclared one up to the length bound, executed on the real matcher state machines (HierarchyReader with stub RecReader; EDI reader on bytes with/without final terminator; csv2 and fixedlength2 through NewSchema with header, header/footer and rows:2 records, with/without final newline, blank lines) and compared step by step with the recursive greedy reference; a case is distinct by (driver, hierarchy, units, variant); states/transitions count hierarchies and matcher runs",
+		Rule:  "every declaration hierarchy (all forest shapes, inner node = group or record-with-children, names, (min,max), single target position) up to the node bound x every unit sequence over the declared names plus an undeclared one up to the length bound, executed on the real matcher state machines (HierarchyReader with stub RecReader; EDI reader on bytes with/without final terminator; csv2 and fixedlength2 through NewSchema with header, header/footer and rows:2 records, with/without final newline, blank lines) and compared step by step with the recursive greedy reference; for the HierarchyReader and EDI drivers additionally every run with a target xpath filter that rejects the target instances containing unit k, for every k in a delivered instance (oracle: the unfiltered reference run minus those deliveries - same matching, terminal result and trees); a case is distinct by (driver, hierarchy, units, variant); states/transitions count hierarchies and matcher runs",
 		Assumptions: []string{
 			"max: 0 is outside the alphabet (the property quantifies over max in {1,2,..,unbounded})",
 			"unit payloads are a serial number; tokenisation of payloads is C06/C07's subject",
@@ -624,6 +719,38 @@ func c05Run(occFull, occRed [][2]int) func(c *core.Ctx) {
 						} else if c.WantSample() && len(want.Deliveries) > 1 && len(names) >= 3 {
 							c.Sample(map[string]interface{}{"driver": pl.driver, "hierarchy": ref.Describe(work), "units": append([]string(nil), names...), "variant": v,
 								"deliveries": want.Deliveries, "terminal": want.Terminal})
+						}
+					}
+					// target xpath filter: for every unit k, reject the target instances containing it; matching,
+					// terminal result and trees must be those of the unfiltered run, minus the rejected deliveries
+					if (pl.driver == "hier" || pl.driver == "edi") && len(want.Deliveries) > 0 {
+						for k := 1; k <= len(units); k++ {
+							wantK := c05FilterOut(want, k)
+							if len(wantK.Deliveries) == len(want.Deliveries) {
+								continue // unit k is in no delivered instance: same as the unfiltered run
+							}
+							var real c05Obs
+							if pl.driver == "hier" {
+								real = runHierF(work, units, c05HierFilter(k))
+							} else {
+								real = runEDIF(work, units, 0, c05EDIFilter(k))
+							}
+							c.Count("transitions", 1)
+							c.Count("traces_validated_against_impl", 1)
+							c.Count("filtered_target_runs", 1)
+							c.EvalN(pl.driver+"|filtered|"+wantK.Terminal+"|"+strconv.Itoa(len(wantK.Deliveries)), 1)
+							if !sameObs(real, wantK, pl.driver == "hier") {
+								cs := c05Case{Driver: pl.driver, Hier: ref.Describe(work), Decls: toJSONDecls(decls), Units: append([]string(nil), names...), FilterSerial: k}
+								sig, detail := c05CheckCase(cs)
+								if sig == "" {
+									sig, detail = "harness:not-reproducible", "filtered disagreement did not reproduce from the serialised case: "+ref.Describe(work)
+								}
+								if strings.HasPrefix(sig, "harness:") {
+									c.HarnessError(sig + " " + detail)
+								} else {
+									c.Violation(sig, detail, cs, func() string { s, _ := c05CheckCase(cs); return s })
+								}
+							}
 						}
 					}
 					return true
